@@ -5,6 +5,7 @@ import (
 	"fmt"
 	"os"
 	"path/filepath"
+	"runtime/pprof"
 	"sort"
 	"strconv"
 	"strings"
@@ -44,12 +45,18 @@ func main() {
 	var subs multiFlag
 	flag.Var(&subs, "sub", "repoRelativeFile::old::new textual overlay substitution (repeatable; self-test)")
 	flag.Parse()
+	if pf := os.Getenv("WCHECK_CPUPROFILE"); pf != "" {
+		if f, err := os.Create(pf); err == nil {
+			_ = pprof.StartCPUProfile(f)
+			defer pprof.StopCPUProfile()
+		}
+	}
 
 	if *explain != "" {
 		b, err := os.ReadFile(*explain)
 		if err != nil {
 			fmt.Println(err)
-			os.Exit(2)
+			exitWith(2)
 		}
 		os.Stdout.Write(b)
 		fmt.Println()
@@ -80,7 +87,7 @@ func main() {
 		b, err := os.ReadFile(parts[1])
 		if err != nil {
 			fmt.Println(err)
-			os.Exit(2)
+			exitWith(2)
 		}
 		ov[filepath.Join(*repo, parts[0])] = b
 	}
@@ -88,7 +95,7 @@ func main() {
 		parts := strings.SplitN(sb, "::", 3)
 		if len(parts) != 3 {
 			fmt.Println("bad -sub")
-			os.Exit(2)
+			exitWith(2)
 		}
 		p := filepath.Join(*repo, parts[0])
 		src, ok := ov[p]
@@ -97,12 +104,12 @@ func main() {
 			src, err = os.ReadFile(p)
 			if err != nil {
 				fmt.Println(err)
-				os.Exit(2)
+				exitWith(2)
 			}
 		}
 		if !strings.Contains(string(src), parts[1]) {
 			fmt.Println("SUB-SITE-NOT-FOUND")
-			os.Exit(3)
+			exitWith(3)
 		}
 		ov[p] = []byte(strings.Replace(string(src), parts[1], parts[2], 1))
 	}
@@ -111,7 +118,7 @@ func main() {
 		w, err := loadWorld(*repo, ov, false)
 		if err != nil {
 			fmt.Println(err)
-			os.Exit(2)
+			exitWith(2)
 		}
 		d, l := 4, 1
 		if *depth > 0 {
@@ -155,12 +162,12 @@ func main() {
 	}
 	if *prop == "" {
 		fmt.Println("usage: wcheck -prop Cnn -tier quick|thorough")
-		os.Exit(2)
+		exitWith(2)
 	}
 	for _, id := range ids {
 		if props[id] == nil {
 			fmt.Printf("unknown property %s\n", id)
-			os.Exit(2)
+			exitWith(2)
 		}
 	}
 	t0 := time.Now()
@@ -207,7 +214,7 @@ func main() {
 			status = 1
 		}
 	}
-	os.Exit(status)
+	exitWith(status)
 }
 
 func short(s string) string {
@@ -259,4 +266,10 @@ func printSummary(e *Engine, i int, s Summary, verbose bool) {
 		rs = append(rs, short(r.String()))
 	}
 	fmt.Printf("  return: %s  @%s\n", strings.Join(rs, " , "), e.posStr(s.RetPos))
+}
+
+
+func exitWith(code int) {
+	pprof.StopCPUProfile()
+	os.Exit(code)
 }
